@@ -361,11 +361,16 @@ package godi
 //@   at before return#7 : assert[C10,C02] void_marker_stored_once: ncalls("scope.setInstance") == 1 && callarg("scope.setInstance", 0, 1) == descriptor
 //@   at before return#8 : assert[C15] no_results_stores_nothing: ncalls("scope.setInstance") == 0 && ncalls("scope.setAliasedInstance") == 0
 //@   at before return#9 : assert[C15] bad_result_object_stores_nothing: ncalls("scope.setInstance") == 0 && ncalls("scope.setAliasedInstance") == 0
-//@   at before return#12 : assert[C04,C01] returned_value_is_what_was_stored_for_this_registration: forall c int :: 0 <= c && c < ncalls("scope.setInstance") && callarg("scope.setInstance", c, 1, "*Descriptor") == descriptor ==>
-//@        callarg("scope.setInstance", c, 3) == primaryService
+//@   ghost ownSeen bool
+//@   ghost ownVal any
+//@   at before call s.setInstance#2 : ghost ownVal := ite(regDescriptor == descriptor, value, ownVal)
+//@   at before call s.setInstance#2 : ghost ownSeen := ownSeen || regDescriptor == descriptor
+//@   at before return#12 : assert[C04,C01] returned_value_is_what_was_stored_for_this_registration: len(descriptor.outputs) > 0 && ownSeen ==> ownVal == primaryService
 //@   at before return#12 : assert[C10,C01] stored_values_are_result_fields: ncalls("scope.setInstance") <= len(registrations)
 //@        && (forall c int :: 0 <= c && c < ncalls("scope.setInstance") ==> (exists i int :: 0 <= i && i < len(registrations) && callarg("scope.setInstance", c, 3) == registrations[i].Value))
 //@   at before return#14 : assert[C10,C01] every_return_value_stored: forall j int :: 0 <= j && j < len(info.Returns) && !info.Returns[j].IsError && pure("Descriptor.outputForReturn", descriptor, info.Returns[j].Index) != nil && !outputSkipped(s.rootProvider, descriptor, pure("Descriptor.outputForReturn", descriptor, info.Returns[j].Index)) ==>
+//@        (exists c int :: 0 <= c && c < ncalls("scope.setInstance") && callarg("scope.setInstance", c, 3) == ext("(reflect.Value).Interface", "any", results[info.Returns[j].Index]))
+//@   at before return#14 : assert[C10] unstored_outputs_are_still_owned: forall j int :: 0 <= j && j < len(info.Returns) && !info.Returns[j].IsError ==>
 //@        (exists c int :: 0 <= c && c < ncalls("scope.setInstance") && callarg("scope.setInstance", c, 3) == ext("(reflect.Value).Interface", "any", results[info.Returns[j].Index]))
 //@   at before return#15 : assert[C15] nil_result_stores_nothing: ncalls("scope.setInstance") == 0 && ncalls("scope.setAliasedInstance") == 0
 //@   at before return#16 : assert[C01,C02,C03,C10] single_output_stored_once: ncalls("scope.setInstance") == 0 && ncalls("scope.setAliasedInstance") == 1 && callarg("scope.setAliasedInstance", 0, 0) == s
@@ -375,7 +380,7 @@ package godi
 //@     invariant only_registered_outputs_stored: forall c int :: 0 <= c && c < ncalls("scope.setInstance") ==> !outputSkipped(s.rootProvider, descriptor, callarg("scope.setInstance", c, 1, "*Descriptor"))
 //@     invariant own_scope: forall c int :: 0 <= c && c < ncalls("scope.setInstance") ==> callarg("scope.setInstance", c, 0) == s
 //@     invariant every_output_is_cached_under_its_registration_identity: forall c int :: 0 <= c && c < ncalls("scope.setInstance") ==> idOf(callarg("scope.setInstance", c, 1, "*Descriptor"), callarg("scope.setInstance", c, 2, "instanceKey"))
-//@     invariant returned_value_is_what_was_stored_for_this_registration: forall c int :: 0 <= c && c < ncalls("scope.setInstance") && callarg("scope.setInstance", c, 1, "*Descriptor") == descriptor ==> callarg("scope.setInstance", c, 3) == primaryService
+//@     invariant returned_value_is_what_was_stored_for_this_registration: len(descriptor.outputs) > 0 && ownSeen ==> ownVal == primaryService
 //@   loop 2
 //@     invariant own_scope: forall c int :: 0 <= c && c < ncalls("scope.setInstance") ==> callarg("scope.setInstance", c, 0) == s
 //@     invariant every_output_is_cached_under_its_registration_identity: forall c int :: 0 <= c && c < ncalls("scope.setInstance") ==> idOf(callarg("scope.setInstance", c, 1, "*Descriptor"), callarg("scope.setInstance", c, 2, "instanceKey"))
